@@ -78,9 +78,30 @@ def run(ctx, model_ok):
         if key in spot and ('text' not in b or spot[key] not in txt(b)):
             ctx.failing.append({'input': {'kind': 'darwin-name', 'key': m[0], 'first': m[1], 'last': m[2]}, 'expected': spot[key],
                                 'actual': txt(b), 'why': 'with Darwin\'s tables the name shown is not Darwin\'s'})
+    # the interpreter's locale / filesystem encoding is part of the host too: non-ASCII path and name bytes must render the
+    # same under a UTF-8 locale and under the C locale with UTF-8 mode off
+    pkeys = [k for k in dc.call_keys(R) if R.uses_paths(k)]
+    lmetas = []
+    for key in rng.sample(pkeys, min(len(pkeys), 30 if ctx.quick() else 200)):
+        paths = [(rng.randint(1, 99), rng.choice(['/tmp/café.txt', '/Users/ü/漢字', '/a/' + 'é' * 20]).encode()) for _ in range(2)]
+        lmetas.append((key, dc.in_domain_first(R, key, rng), [0, 3, 0, 0], 7, paths, []))
+    lmetas.append(('VFS_LOOKUP', [5] + [int.from_bytes('/é/ü'.encode().ljust(24, b'\0')[8 * i:8 * i + 8], 'little') for i in range(3)],
+                   [0, 0, 0, 0], 7, [], []))
+    CENV = {'LC_ALL': 'C', 'LANG': 'C', 'PYTHONCOERCECLOCALE': '0', 'PYTHONUTF8': '0'}
+    UENV = {'LC_ALL': 'C.UTF-8', 'LANG': 'C.UTF-8', 'PYTHONUTF8': '1'}
+    lu = dc.run_windows(R, lmetas, env_extra=UENV)['results']
+    lc = dc.run_windows(R, lmetas, env_extra=CENV)['results']
+    ctx.evaluations += 2 * len(lmetas)
+    for m, a, b in zip(lmetas, lu, lc):
+        ctx.count('locale')
+        if a != b:
+            ctx.failing.append({'input': {'kind': 'locale', 'key': m[0], 'first': m[1], 'last': m[2],
+                                          'paths': [[v, t.hex()] for v, t in m[4]]},
+                                'expected': {'under a UTF-8 locale': txt(a)}, 'actual': {'under LC_ALL=C, UTF-8 mode off': txt(b)},
+                                'why': 'the rendering changes with the locale / filesystem encoding of the host interpreter'})
     ctx.rule = ('every errno 0..109,150,200 (quick: 15 codes) through two decoders, signals 0..64 (quick 0..32), address families '
                 '0..45 x socket types, socket-option levels {1, 0xffff, 6, 17} x option names, and 25/120 rows that do not read the '
-                'host; each rendered with the real host modules AND with Darwin stand-ins; non-trivial = distinct input whose two '
+                'host; each rendered with the real host modules AND with Darwin stand-ins; plus path-taking rows with non-ASCII paths under a UTF-8 locale and under LC_ALL=C with UTF-8 mode off; non-trivial = distinct input whose two '
                 'renderings differ')
     ctx.samples = [{'key': metas[20][0], 'last': metas[20][2], 'on_this_host': txt(real['results'][20]),
                     'on_darwin_tables': txt(darw['results'][20])}]
